@@ -35,6 +35,8 @@ def draw_tree(draw, max_depth=3, max_files=3, max_subdirs=3, max_cmds=3, odd_nam
             counter[0] += 1
             desc = draw(cmakegen.desc_strategy(max_cmds=max_cmds, with_mod=with_mod))
             return cmakegen.render(desc, tag).text
+        if name == "cmake":
+            return "set(zfilenamedcmake 1)\n"
         return f"not cmake: {name}\n"
 
     def fill(d, depth):
